@@ -62,7 +62,13 @@ def reduce_pairs(rng, tier):
                 base["oo"] = 1
                 if base["tf"]:
                     base["kcont"] = "np"
-                if nkeys == 1 and n >= 2 and rng.random() < 0.3 and not (kencs[0] == "str" and rows[0][0] == NULL):
+                if base["tf"] and nkeys == 1 and n >= 2 and rng.random() < 0.6:
+                    # transform on chunk-wise factorized keys: the null slot of the merged per-chunk results is what null-key rows read
+                    base["kenc"] = kencs = [rng.pick(["f64", "M8"] if rows[0][0] == NULL else ["f64", "M8", "str"])]
+                    base["T"] = 2
+                    if base["op"] in ("size", "count") and rng.random() < 0.7:
+                        base["op"] = rng.pick(["sum", "min", "max", "first", "last"])
+                elif nkeys == 1 and n >= 2 and rng.random() < 0.3 and not (kencs[0] == "str" and rows[0][0] == NULL) and not kencs[0].startswith("cat"):
                     base["T"] = 2
                 keep = [i for i, r in enumerate(rows) if NULL not in r]
                 f = deleted(base, keep)
